@@ -6,6 +6,7 @@ CONSTANTS
   Kinds = {"close", "keep", "ws"}
   SigTwice = FALSE
   Dev = {}
+  Faults = {}
 SPECIFICATION SpecAllFair
 INVARIANTS TypeOK
 PROPERTIES Live_RunReturns Live_Drains Live_Answered
